@@ -595,6 +595,9 @@ class ApplicationJobs:
                 # generate a process event for this process to inform all Supvisors instances
                 reason = f'process {getProcessStateDescription(expected_state)} event not received in time'
                 self.fail_command(command.process, command.identifier, event_time, reason)
+                # the command is not in the current jobs anymore when the forced event comes back,
+                # so apply here the consequences of the failure (starting failure strategy)
+                self.process_failure(command.process)
             if result == ProcessRequestResult.SUCCESS:
                 # NOTE: the result has been reached outside the scope of the sequencer
                 #       the job MUST be removed of the sequencer will block
